@@ -11,7 +11,8 @@ RULE = ("one case = one history on the real OAuth 2 or OAuth 1 provider in which
         "every fault (stepFault = the completed effects of the step), every later output and the final store")
 ASSUMPTIONS = ["a fault is an exception raised by the callback before it acts; a failed SQLAlchemy commit leaves the stored rows unchanged (FakeSession rolls back)",
                "repeating an OAuth 1 request = re-signing it with a new nonce (a verbatim resend is a replay and is refused by design, C12)",
-               "the implicit flow is traced and checked by the statement oracle but is not part of the Lean state machine"]
+               "the implicit, OpenID implicit and hybrid flows are traced (Generated/Flows, kernel-decided ordering) and checked by the statement oracle but are not part of the Lean state machine",
+               "repeating an OpenID authorization request = sending it with a fresh nonce"]
 
 
 def canon_store(st):
@@ -57,7 +58,7 @@ def scenario_cases(pairs):
         _, ncb, o0 = F.trace(name)
         expect = o0.get("status")
         for k in range(ncb + 1):
-            rs = lambda t: resign(op, t) if kind == "oauth1" else dict(op)
+            rs = lambda t: resign(op, t) if kind == "oauth1" or op["op"] == "oidc_authorize" else dict(op)
             ops = list(setup) + [dict(rs("f"), fault=k), rs("r1"), rs("r2")]
             c = record(kind, None, ops)
             c["scenario"], c["expect_retry"], c["k"] = name, expect, [k]
@@ -83,9 +84,9 @@ def cases(rng, tier):
 
 
 def impl(c):
-    if c["world"] == "oauth2":
+    if c["world"] in ("oauth2", "oidc"):
         cfg = c["cfg"]
-        w = H.World(cfg.get("pkce_required", False), cfg.get("supported"), cfg.get("strict_hint", False))
+        w = H.World(cfg.get("pkce_required", False), cfg.get("supported"), cfg.get("strict_hint", False), oidc=cfg.get("oidc", False))
     else:
         w = c12.World1(c["cfg"]["methods"])
     outs = []
@@ -101,7 +102,7 @@ def impl(c):
 
 
 def model_line(c):
-    if any(op["op"] == "implicit" for op in c["ops"]):
+    if c["world"] == "oidc" or any(op["op"] == "implicit" for op in c["ops"]):
         return None
     return {"world": c["world"], "cfg": c["cfg"], "ops": [{k: v for k, v in op.items() if k != "fault"} for op in c["ops"]]}
 
@@ -164,7 +165,7 @@ def oracle(c, out):
             continue
         # consumed only after the replacement is stored
         new = _stored_names(after) - _stored_names(before)
-        if c["world"] == "oauth2":
+        if c["world"] in ("oauth2", "oidc"):
             gone_codes = {x[0] for x in before["codes"]} - {x[0] for x in after["codes"]}
             rev = lambda st: {t[0] for t in st["tokens"] if t[6]}
             newly_revoked = rev(after) - rev(before)
